@@ -216,8 +216,8 @@ def switch_settings(table, classes, rnd, tier):
             if a != b:
                 pairs.append([a, b])
     rnd.shuffle(pairs)
-    settings += pairs[:(6 if tier == "quick" else 60)]
-    triples = [[rnd.choice(single) for _ in range(3)] for _ in range(2 if tier == "quick" else 20)]
+    settings += pairs[:(6 if tier == "quick" else 30)]
+    triples = [[rnd.choice(single) for _ in range(3)] for _ in range(2 if tier == "quick" else 10)]
     settings += triples
     out = []
     for s in settings:
@@ -528,7 +528,7 @@ def main(tier, seed):
     ev.bump("no-argument-invocation:" + ("signal" if r.sig else "exit-%s" % r.rc))
     sc0.close()
 
-    n = 330 if tier == "quick" else 2400
+    n = 330 if tier == "quick" else 700
     srcs = M.sources(common.sub_seed(seed, PROP, "schemas"), n, {"expgen": {"max_ent": 8, "max_typ": 6}})
     for p in M.shipped(common.REPO, "unitary"):
         try:
@@ -605,7 +605,7 @@ def main(tier, seed):
     for fid in ev.known:
         e = [x for x in findings.entries if x.get("id") == fid]
         common.print_known(PROP, e[0]["what"] if e else fid)
-    min_cases = 20000 if tier == "quick" else 150000
+    min_cases = 20000 if tier == "quick" else 120000
     if ev.evaluations < min_cases and rc == 0:
         print("machinery failure: only %d cases executed" % ev.evaluations)
         rc = 3
